@@ -160,6 +160,13 @@ def binder_summaries(prog: Program, rep: Report):
             continue
         pos = summarise_pos(r[1][0])
         kw = summarise_kw(r[1][1])
+        kwt = r[1][1]
+        if kw is None and kwt[0] == "comp" and kwt[1] == "dict" and kwt[4] and len(kwt[3]) == 1 and kwt[3][0][0] == ("call", ("attr", ("param", "kwargs"), "items"), (), ()):
+            # a filtered pass over the caller's keywords: whatever the test, some keyword can fail it and is then not
+            # forwarded, so the target never gets to reject it
+            conds = "; ".join(T.show(cd)[:50] for cd in kwt[4])
+            rep.violated("R10.1", c.qualname, f.loc, f"the caller's keywords are filtered before they are forwarded ({conds}): a keyword that fails the test is dropped silently, so a call Python would reject (unexpected keyword argument) is accepted -- bind(f)('1', c='3') returns instead of raising TypeError", detail="keywords-forwarded")
+            continue
         if pos is None or kw is None:
             rep.undecided("R10.1", c.qualname, f.loc, "binder expression outside the summary idiom set: " + T.show(r)[:300])
             continue
